@@ -462,6 +462,45 @@ def gen_commands():
     out += ["]", "", "end Nun.Gen", ""]
     return "\n".join(out)
 
+def trailer_table():
+    """what each socket front end sends after a request, per Response variant it distinguishes: (transport, variant or `_`, format string)"""
+    rows = []
+    for tr, rel, start_re in (("tcp", "network/tcp_ops.rs", r"_ => match process_request\("), ("ws", "network/ws_ops.rs", r"match process_request\(&message")):
+        text = src(rel)
+        cut = text.find("#[cfg(test)]\nmod tests")
+        if cut > 0: text = text[:cut]
+        b = blank(text)
+        ms = list(re.finditer(start_re, text))
+        if len(ms) != 1: raise ExtractError(f"trailer table in {rel}: /{start_re}/ found {len(ms)} times")
+        i = b.index("{", ms[0].end()); depth = 1; j = i + 1
+        while j < len(b) and depth > 0:
+            if b[j] == "{": depth += 1
+            elif b[j] == "}": depth -= 1
+            j += 1
+        body = text[i + 1:j - 1]; bb = b[i + 1:j - 1]
+        # top-level arms of the match: `<pattern> => {` at depth 0
+        depth = 0; k = 0; arms = []
+        for m in re.finditer(r"(Response::(\w+)\s*\{[^}]*\}|\b_|\be)\s*=>", bb):
+            d = bb[:m.start()].count("{") - bb[:m.start()].count("}")
+            if d == 0: arms.append((m.group(2) or "_", m.end()))
+        for ix, (variant, pos) in enumerate(arms):
+            end = arms[ix + 1][1] if ix + 1 < len(arms) else len(body)
+            fm = re.search(r'format!\(\s*"((?:[^"\\]|\\.)*)"', body[pos:end])
+            if not fm: raise ExtractError(f"trailer table in {rel}: arm {variant} sends nothing recognisable")
+            rows.append((tr, variant, unescape(fm.group(1))))
+    return rows
+
+def gen_trailers():
+    rows = trailer_table()
+    out = ["namespace Nun.Gen", "",
+           "/-- the line each socket front end sends after a request: (transport, Response variant — `_` = every other —, format text) -/",
+           "def trailerTable : List (List Nat × List Nat × List Nat) := ["]
+    for ix, (tr, v, f) in enumerate(rows):
+        out.append(f"  -- {tr}: {v} -> {f!r}")
+        out.append(f"  ({bytes_lit(tr)}, {bytes_lit(v)}, {bytes_lit(f)})" + ("," if ix + 1 < len(rows) else ""))
+    out += ["]", "", "end Nun.Gen", ""]
+    return "\n".join(out)
+
 def write(name, text):
     os.makedirs(OUT, exist_ok=True)
     p = os.path.join(OUT, name)
@@ -471,7 +510,7 @@ def write(name, text):
 
 def main():
     errors = []
-    for name, fn in [("Lits.lean", gen_lits), ("Guards.lean", gen_guards), ("PanicSites.lean", gen_panic_sites), ("Atomic.lean", gen_atomic), ("Close.lean", gen_close), ("Notify.lean", gen_notify), ("Commands.lean", gen_commands)]:
+    for name, fn in [("Lits.lean", gen_lits), ("Guards.lean", gen_guards), ("PanicSites.lean", gen_panic_sites), ("Atomic.lean", gen_atomic), ("Close.lean", gen_close), ("Notify.lean", gen_notify), ("Commands.lean", gen_commands), ("Trailers.lean", gen_trailers)]:
         try:
             write(name, "-- GENERATED by extract/extract.py from /repo/src — do not edit\n" + fn())
         except ExtractError as e:
